@@ -25,6 +25,7 @@ func init() {
 	reg("C04", "C04.R7", "E1+E2", "processor pool growth: a processor counts as active for the whole ownership of a stream; the pool doubles when all are active", 3, ruleProcPoolGrowth)
 	reg("C04", "C04.R8", "E2+E8", "no capacity unit of the low-memory pool is lost: admission / undo / one Dec per back (same rule as C05.R3)", 1, ruleLowMemAdmission)
 	reg("C04", "C04.R9", "E2+E8", "no capacity unit of the standard pool is lost (same rule as C05.R4)", 1, ruleStdPoolBalance)
+	reg("C04", "C04.R11", "E2+E6", "blocked list: every stream's recorded position is its position (append records the length, a moved stream gets its new index)", 2, ruleBlockedIndex)
 	reg("C04", "C04.R10", "E2", "no event leaks out of In without being streamed or given back (same rule as C05.R2)", 1, ruleGetStreamOrBack)
 }
 
@@ -384,6 +385,16 @@ func rulePoolHeartbeat(c *Ctx, r *Rule) {
 			}
 		}
 		r.Ob(len(bcasts) >= 1, typ+"|heartbeat-broadcast", hb.Pos(), "heartbeat broadcasts on the pool's cond")
+		// the heartbeat is started once (sync.Once): it may end only when the pool is stopped
+		for i, ret := range returnsOf(hb) {
+			okStop := false
+			for _, l := range c.unitGuards(ret) {
+				if call, ok := l.v.(*ssa.Call); ok && atomicOpOn(call, "Load", typ, "stopped") && l.pol {
+					okStop = true
+				}
+			}
+			r.Ob(okStop, fmt.Sprintf("%s|heartbeat-ends-only-on-stop#%d", typ, i), ret.Pos(), "the heartbeat goroutine, which is started only once, returns only when the pool is stopped (if it retires earlier, a reader whose wake-up was missed sleeps for ever)")
+		}
 		for i, b := range bcasts {
 			cyc, _ := c.pathExists(hb, b, func(in ssa.Instruction) bool { return in == ssa.Instruction(b) }, nil)
 			r.Ob(cyc, fmt.Sprintf("%s|heartbeat-loop#%d", typ, i), b.Pos(), "the heartbeat broadcast is periodic (inside a loop)")
@@ -721,6 +732,9 @@ func ruleBlockedTimeout(c *Ctx, r *Rule) {
 		okLoop, _ = c.pathExists(hb, uc, func(in ssa.Instruction) bool { return in == ssa.Instruction(uc) }, nil)
 	}
 	r.Ob(okLoop, c.fnName(hb)+"|unblock-loop", hb.Pos(), "the heartbeat periodically calls the unblock function on the blocked streams")
+	for i, ret := range returnsOf(hb) {
+		r.Ob(c.guardedByStopFlag(ret, "streamer", "shouldStop"), fmt.Sprintf("%s|ends-only-on-stop#%d", c.fnName(hb), i), ret.Pos(), "the time-out heartbeat returns only when the streamer is stopping")
+	}
 	// the list it walks is read from streamer.blocked under blockedMu
 	okRead := false
 	flow := c.flowMust(hb)
@@ -769,6 +783,9 @@ func ruleFlushHeartbeat(c *Ctx, r *Rule) {
 	r.Ob(hb != nil, c.fnName(start)+"|starts-heartbeat", start.Pos(), "Batcher.Start starts a goroutine that calls the send-if-ready function")
 	if hb == nil {
 		return
+	}
+	for i, ret := range returnsOf(hb) {
+		r.Ob(c.guardedByStopFlag(ret, "Batcher", "shouldStop"), fmt.Sprintf("%s|ends-only-on-stop#%d", c.fnName(hb), i), ret.Pos(), "the flush heartbeat returns only when the batcher is stopping (a retired heartbeat leaves a partly filled batch unsent for ever)")
 	}
 	for _, ci := range callsIn(hb) {
 		if calleeFunc(ci) != br.sender {
@@ -1152,4 +1169,119 @@ func isAtomicLoadOfPtr(v ssa.Value, typ, field string) bool {
 		return false
 	}
 	return isLoadOfField(call.Call.Args[0], pipelinePkg, typ, field)
+}
+
+// ruleBlockedIndex: the time-out heartbeat only sees the streams that are in streamer.blocked, and a
+// stream leaves the list by the position recorded in stream.blockIndex. A stream whose recorded
+// position is stale removes another, still parked stream from the list, which then never gets its
+// time-out. Necessary condition checked: blocked[i].blockIndex == i is re-established by every writer.
+func ruleBlockedIndex(c *Ctx, r *Rule) {
+	isBlockedLoad := func(v ssa.Value) bool { return isLoadOfField(stripConv(v), pipelinePkg, "streamer", "blocked") }
+	elemOfBlocked := func(addr ssa.Value) (*ssa.IndexAddr, bool) {
+		ia, ok := addr.(*ssa.IndexAddr)
+		if !ok || !isBlockedLoad(ia.X) {
+			return nil, false
+		}
+		return ia, true
+	}
+	idxWrites := c.fieldAccesses(pipelinePkg, "stream", "blockIndex")
+	explained := map[ssa.Instruction]bool{}
+	nElem, nApp := 0, 0
+	for _, fn := range c.ModFuncs {
+		if c.pkgOf(fn) != "pipeline" {
+			continue
+		}
+		for _, b := range fn.Blocks {
+			for _, in := range b.Instrs {
+				st, ok := in.(*ssa.Store)
+				if !ok {
+					continue
+				}
+				ia, ok := elemOfBlocked(st.Addr)
+				if !ok || isNilConst(st.Val) {
+					continue
+				}
+				nElem++
+				r.Inst(1)
+				okFix := false
+				for _, a := range idxWrites {
+					if !a.write || a.fn != fn || !lin(a.val).equal(lin(ia.Index)) {
+						continue
+					}
+					if !(instrDominates(st, a.in) || instrDominates(a.in, st)) {
+						continue
+					}
+					same := stripConv(a.base) == stripConv(st.Val)
+					if ld, isLd := stripConv(a.base).(*ssa.UnOp); isLd && ld.Op == token.MUL {
+						if ia2, ok2 := elemOfBlocked(ld.X); ok2 && lin(ia2.Index).equal(lin(ia.Index)) {
+							same = true
+						}
+					}
+					if same {
+						okFix = true
+						explained[a.in] = true
+					}
+				}
+				r.Ob(okFix, c.fnName(fn)+"|moved-stream-gets-its-index", st.Pos(), "a stream stored at position i of streamer.blocked has blockIndex set to i in the same function (a stale index later removes another, still parked stream from the list: it never gets its time-out)")
+			}
+		}
+	}
+	for _, a := range c.fieldAccesses(pipelinePkg, "streamer", "blocked") {
+		if !a.write {
+			continue
+		}
+		app, ok := isBuiltinCall(instrOf(a.val), "append")
+		if !ok || len(app.Call.Args) != 2 {
+			continue
+		}
+		nApp++
+		r.Inst(1)
+		okLen := false
+		if v, single := singleVararg(app.Call.Args[1]); single {
+			for _, w := range idxWrites {
+				if !w.write || w.fn != a.fn || stripConv(w.base) != stripConv(v) || !instrDominates(w.in, a.in) {
+					continue
+				}
+				f := lin(w.val)
+				if f.k == 0 && len(f.t) == 1 {
+					for k, n := range f.t {
+						if k.isLen && n == 1 && isBlockedLoad(k.v) {
+							okLen = true
+							explained[w.in] = true
+						}
+					}
+				}
+			}
+		}
+		r.Ob(okLen, c.fnName(a.fn)+"|appended-stream-records-length", a.in.Pos(), "a stream appended to streamer.blocked records the list's length before the append as its position")
+	}
+	for _, w := range idxWrites {
+		if !w.write || explained[w.in] {
+			continue
+		}
+		if k, isK := constInt(w.val); isK && k == -1 {
+			continue
+		}
+		if isFreshAlloc(w.base) {
+			continue
+		}
+		r.Ob(false, c.fnName(w.fn)+"|writes-blockIndex", w.in.Pos(), "stream.blockIndex is written only with the stream's position in streamer.blocked or -1")
+	}
+	r.Ob(nElem >= 1 && nApp >= 1, "streamer.blocked|writers", token.NoPos, fmt.Sprintf("the blocked list has an appending writer and a position-filling remover (found %d element stores, %d appends)", nElem, nApp))
+}
+
+// guardedByStopFlag: in is reached only when the stop flag (a plain bool field or an atomic with Load) is true.
+func (c *Ctx) guardedByStopFlag(in ssa.Instruction, typ, field string) bool {
+	for _, l := range c.unitGuards(in) {
+		if !l.pol {
+			continue
+		}
+		if isLoadOfField(l.v, pipelinePkg, typ, field) {
+			return true
+		}
+		if call, ok := l.v.(*ssa.Call); ok && atomicOpOn(call, "Load", typ, field) {
+			return true
+		}
+	}
+	return false
 }
